@@ -140,6 +140,11 @@ pub struct TreeCache {
 impl TreeCache {
     pub fn new(sentinel: Option<NodePtr>) -> Self {
         let mut rng = rand::rng();
+        #[cfg(feature = "verif-hooks")]
+        let mut rng = {
+            let _os_rng = &mut rng;
+            crate::verif::SimRng::new(crate::verif::Site::TreeCacheSalt)
+        };
         Self {
             sentinel_node: sentinel,
             atom_lookup: HashMap::with_hasher(RandomState::default()),
